@@ -217,6 +217,45 @@ def rule_r3(ctx) -> List[R.Inst]:
                             construct="HoldList.between without isinstance(include_ends, bool)"))
     else:
         insts.append(R.ok("C16.R3", "HoldList.between.normalisation", file, line, idiom="bool include_ends normalised"))
+    # move_start_to / move_end_to: every offset shifted by (to - first_offset()) / (to - last_offset()), on a copy
+    for name, end in (("move_start_to", "first_offset"), ("move_end_to", "last_offset")):
+        q = TL + "." + name
+        if q not in M.funcs:
+            continue
+        fn = M.fn(q)
+        file, line = fn_loc(M, q)
+        key = f"TimedList.{name}"
+        to = [a.arg for a in fn.node.args.args if a.arg != "self"][:1]
+        augs = [n for n in walk_no_nested(fn.node) if isinstance(n, ast.AugAssign) and isinstance(n.op, ast.Add) and
+                unparse(n.target).endswith(".offset")]
+        if len(augs) != 1 or not to:
+            insts.append(R.undec("C16.R3", key, file, line, "single `<copy>.offset += shift` expected"))
+            continue
+        sh = augs[0].value
+        # resolve single-assignment locals in the shift
+        env = {}
+        for n in walk_no_nested(fn.node):
+            if isinstance(n, ast.Assign) and isinstance(n.targets[0], ast.Name):
+                env.setdefault(n.targets[0].id, []).append(n.value)
+
+        def leaf(n):
+            t = unparse(n)
+            if isinstance(n, ast.Name) and len(env.get(n.id, [])) == 1:
+                return leaf(env[n.id][0]) or unparse(env[n.id][0])
+            if t in (f"self.{end}()",):
+                return "END"
+            if t == to[0]:
+                return "TO"
+            return None
+        from .. import sym as _sym
+        r = _sym.canon(sh, leaf)
+        if r.same(_sym.parse("TO - END")):
+            insts.append(R.ok("C16.R3", key, file, augs[0].lineno, idiom=f"offset += to - {end}()"))
+        else:
+            insts.append(R.viol("C16.R3", key, file, augs[0].lineno,
+                                f"{name} must shift every offset by (to - {end}()), the {'earliest' if 'first' in end else 'latest'} "
+                                f"offset of all rows whatever their order; the shift is '{unparse(sh)}'",
+                                construct=f"{name}: offset += {unparse(sh)}"))
     return insts
 
 
@@ -602,9 +641,11 @@ def rule_r10(ctx) -> List[R.Inst]:
     return insts
 
 
-def _setter_shape_problem(f: ast.FunctionDef, stores, vparam, tgt_text, aliases):
+def _setter_shape_problem(f: ast.FunctionDef, stores, vparam, tgt_text, aliases, cast_ok=False):
     """A generated setter stores the value it is given, on every path: no early exit, every branch stores, and the stored
-    value is the parameter itself (accepted conversions: `.df` of it, or a cast to the dtype the *target* currently has)."""
+    value is the parameter itself (accepted conversions: `.df` of it; for item fields only — one scalar cell — a cast to the
+    dtype the cell currently has, the idiom of the pinned tree; a whole column cast to its old dtype truncates float times
+    assigned to an integer-typed column)."""
     for n in ast.walk(f):
         if isinstance(n, ast.Return):
             return (f"the generated setter returns early on some values (line {n.lineno}): those assignments are silently dropped",
@@ -628,7 +669,7 @@ def _setter_shape_problem(f: ast.FunctionDef, stores, vparam, tgt_text, aliases)
         t = tgt_text(x)
         ok = isinstance(v, ast.Name) and v.id == vparam
         ok = ok or (isinstance(v, ast.Attribute) and isinstance(v.value, ast.Name) and v.value.id == vparam and v.attr == "df")
-        if not ok and isinstance(v, ast.Call) and isinstance(v.func, ast.Attribute) and v.func.attr == "astype" and \
+        if not ok and cast_ok and isinstance(v, ast.Call) and isinstance(v.func, ast.Attribute) and v.func.attr == "astype" and \
                 isinstance(v.func.value, ast.Name) and v.func.value.id == vparam and len(v.args) == 1:
             a = unparse(v.args[0])
             ok = a.endswith(".dtype") and a[:-6].replace(" ", "") == unparse(x.targets[0]).replace(" ", "")
@@ -702,7 +743,7 @@ def rule_r11(ctx) -> List[R.Inst]:
                     return t.replace(kb, "k_")
                 tg = {tgt_text(x) for x in real}
                 vparam = args[1].arg if len(args) > 1 else None
-                prob = _setter_shape_problem(f, real, vparam, tgt_text, set(alias))
+                prob = _setter_shape_problem(f, real, vparam, tgt_text, set(alias), cast_ok=(deco == "item_props"))
                 other_loop = sorted({x.id for b in f.body for x in ast.walk(b) if isinstance(x, ast.Name) and
                                      isinstance(x.ctx, ast.Load)} & ({y.id for y in ast.walk(lp.target) if isinstance(y, ast.Name)} - {kvar}))
                 if other_loop:
@@ -738,7 +779,7 @@ def rule_r12(ctx) -> List[R.Inst]:
 SPECS = [
     RuleSpec("C16.R1", rule_r1, 2, "A7", "int index is positional; other indices re-wrap df[...] in the receiver's class"),
     RuleSpec("C16.R2", rule_r2, 2, "A7", "__len__ = rows; __iter__ yields one item per row in row order"),
-    RuleSpec("C16.R3", rule_r3, 6, "A8", "first/last = min/max of offset (tail for holds); overrides keep guard and normalisation"),
+    RuleSpec("C16.R3", rule_r3, 8, "A8", "first/last = min/max of offset (tail for holds); overrides keep guard and normalisation"),
     RuleSpec("C16.R4", rule_r4, 2, "A7", "sorted: key offset, ascending = not reverse, stable"),
     RuleSpec("C16.R5", rule_r5, 1, "A7", "append: concat [self, val], fresh index, optional sort"),
     RuleSpec("C16.R6", rule_r6, 14, "A7", "filter comparator truth tables for every flag combination"),
